@@ -249,7 +249,7 @@ fn file_form(name: &str, lines: &[String], want: &str) -> Option<String> {
             && l.trim_end() == l.as_str()
             && !l.trim_start().starts_with("//")
             && !l.contains(['\n', '\r'])
-            && rosu_map::section::Section::try_from_line(l).is_none()
+            && crate::frame::ref_section(l).is_none()
     };
     if !lines.iter().all(neutral) {
         return None;
